@@ -263,6 +263,15 @@ def sam_layer(ctx, which, n=2):
                         L.to_existing_file("sam toMultiAlign", argv, opt="--fasta-out")
                     L.same("sam toMultiAlign, SAM on stdin", argv[:2] + argv[4:], base, stdin=samb, files=[sp])
             elif which == "topa":
+                # -o stdout: every pair, in input order, whatever the number of workers (a dozen queries, repeated runs)
+                many = []
+                for qi in range(12):
+                    cig = [("M", Lg)] if qi % 3 else [("M", Lg // 2), ("I", 1 + qi % 2), ("M", Lg - Lg // 2)]
+                    many.append({"name": "m%d" % qi, "flag": 0, "pos": 0, "cigar": cig, "seq": samgen.build_seq(rng, cig, 0, gen.mutate(rng, genome, p_sub=0.1, p_amb=0, p_gap=0, p_lower=0))})
+                mp_ = L.W("many%d.sam" % k, samgen.render_sam("REF", Lg, many))
+                for rep in range(5):
+                    L.equal_runs("sam toPairAlign -o stdout: 4 workers vs 1 worker", ["sam", "toPairAlign", "-s", mp_, "-r", rp, "-o", "stdout", "-t", "1"],
+                                 ["sam", "toPairAlign", "-s", mp_, "-r", rp, "-o", "stdout", "-t", "4"], files=[mp_, rp])
                 names = [b[0]["name"] for b in samgen.blocks_of(recs)]
                 files = [nm.replace("/", "_") + ".fasta" for nm in names]
                 for ci, (omit_ref, omit_ins) in enumerate(((False, False), (True, False), (False, True), (True, True))):
